@@ -29,7 +29,8 @@ CellViol(c, strategy) ==
       got == J2T(c.got)
   IN  IF HasUnres(got) THEN {"SelfContained"}
       ELSE IF Norm(got) \in AllowedArg(p, strategy) THEN {}
-      ELSE IF c.self THEN {"ReceiverBare"}
+      \* an annotated receiver that keeps its annotation under OMIT breaks C13's omit clause as well as C12's
+      ELSE IF c.self THEN (IF ~IsAbs(p.src) /\ strategy = "OMIT" THEN {"ReceiverBare", "AnnotationMatrix"} ELSE {"ReceiverBare"})
       ELSE IF IsAbs(p.src) /\ ~IsAbs(p.traced) THEN {"DenotesSame"}
       ELSE {"AnnotationMatrix"}
 
